@@ -197,6 +197,12 @@ def monitors(rep, rng, runq, todo, f, data, comps, grids, expansions, normalize,
                 h = MFPCA(n_components=K, method="covariance", univariate_expansions=[dict(e) for e in expansions[::-1]],
                           normalize=normalize)
                 h.fit(fd.multivariate(comps[::-1]), method_smoothing=None)
+                try:      # USE the first fit before refitting (whatever is computed lazily gets computed now)
+                    h.inverse_transform(np.asarray(h.transform(None, method="PACE"), float))
+                    h.transform(None, method="NumInt")
+                    h.eigenfunctions.to_grid()
+                except Exception:  # noqa: BLE001
+                    pass
                 h.univariate_expansions = [dict(e) for e in expansions]
                 h.fit(data, method_smoothing=None)
                 Eh = [np.asarray(c.values, float) for c in h.eigenfunctions.to_grid().data]
@@ -213,6 +219,9 @@ def monitors(rep, rng, runq, todo, f, data, comps, grids, expansions, normalize,
                 bad.append("a fit on this dataset after a fit on another dataset differs from a fresh fit (state kept from the earlier fit)")
         except AttributeError:
             pass            # univariate_expansions is not assignable: no refit with other expansions through the public API
+        except Exception as e:  # noqa: BLE001
+            bad.append(f"fit / inverse_transform on this dataset after the same estimator was fitted and used on another dataset "
+                       f"raised {type(e).__name__}: {str(e)[:100]} (a fresh estimator works)")
     # permutation of the components
     if P >= 2:
         for perm in itertools.permutations(range(P)):
